@@ -95,6 +95,17 @@ class TranscriptInterval(AbstractFeatureInterval):
             elif len(cds_frames) != len(cds_starts):
                 raise InvalidCDSIntervalError("Number of CDS frames must match number of CDS starts/ends")
 
+            # every CDS block must lie within the exons (adjacent or overlapping exons count as one stretch)
+            merged_exons = []
+            for exon_start, exon_end in sorted(zip(exon_starts, exon_ends)):
+                if merged_exons and exon_start <= merged_exons[-1][1]:
+                    merged_exons[-1][1] = max(merged_exons[-1][1], exon_end)
+                else:
+                    merged_exons.append([exon_start, exon_end])
+            for cds_start, cds_end in zip(cds_starts, cds_ends):
+                if not any(exon_start <= cds_start and cds_end <= exon_end for exon_start, exon_end in merged_exons):
+                    raise InvalidCDSIntervalError(f"CDS block {cds_start}-{cds_end} is not contained in the exons")
+
             # as a result of a parent or seq chunk parent constructor, it may be the case that this CDS is entirely
             # sliced out. Check this case, and then void out the CDS.
             try:
